@@ -30,18 +30,20 @@ CHECKS = {
          'finite-sum lemmas; M-steps (Gillespie direct method, thinning, Sellke) cited; termination not proved.',
     technique='contract-based deductive verification: loop invariants + draw-site obligations on the real simulators, modular callee contracts, z3 (quantified, unbounded) + finite-scope refutation'),
  'C02': dict(
-    category='other',
-    text='Gillespie_SIS (unbounded): view/rate loop invariants with link re-insertion on recovery, draw-site obligations, all ways of passing the initial '
-         'condition, weighted and unweighted, graphs of any order. fast_SIS: _find_next_trans_SIS_Markov (the queued transmission time is current time + Exp(rate), re-drawn '
-         'from the target\'s recovery time when it falls before it, queued only if before the source\'s recovery and tmax) and _process_rec_SIS_ are under unbounded contract; '
-         '_process_trans_SIS_Markov and the driver only by a bounded native stand-in (scripted random source: every Gillespie_SIS waiting time uses the total rate of the '
-         'current state; fixed-seed state distribution of both simulators on a 3-node path against the master equation, 6 standard errors) - hence level other.',
-    design_ref='DESIGN.md section 5 "C02"',
-    note='As C01. Memorylessness argument for the fast_SIS re-draw cited. The statistical stand-in is deterministic (fixed seeds).',
-    technique='contract-based deductive verification: loop invariants + draw-site obligations, z3; bounded native comparison with the exact master equation for fast_SIS'),
+    category='proof',
+    text='Gillespie_SIS: view/rate loop invariants with link re-insertion on recovery, draw-site obligations, all ways of passing the initial condition, weighted and unweighted, '
+         'graphs of any order. fast_SIS: the three handlers under contract (_find_next_trans_SIS_Markov: queued time = now + Exp(rate), re-drawn from the target\'s recovery time '
+         'when it falls before it, queued only if before the source\'s recovery and tmax; _process_trans_SIS_Markov: infect iff susceptible, recovery ~ Exp(rec rate), one attempt chain '
+         'started per neighbour and the source\'s chain continued exactly once, event arguments bound onto the handler\'s own signature; _process_rec_SIS_), and the event loop by the queue rule '
+         '(lemma unit event_step_SIS: one step preserves the global invariant: rows, pending events in [now, tmax), a pending recovery sits at rec_time of an infected node, a pending attempt u->v '
+         'comes from an infected u strictly before rec_time[u], a susceptible node\'s rec_time is not in the future, initial infections first). A bounded native comparison with the master '
+         'equation backs this up (supplementary).',
+    design_ref='DESIGN.md section 5 "C02", 9.3',
+    note='As C01. Memorylessness of the re-draw and the step from per-event facts to equality in law are cited (M). "Every infected node has its recovery pending" is not part of the proved invariant.',
+    technique='contract-based deductive verification: loop invariants + draw-site and call-site obligations, queue-rule lemma over handler contracts, z3 (quantified, unbounded) + finite-scope refutation'),
  'C03': dict(
     category='other',
-    text='Bounded stand-in only (labelled bounded): Gillespie_simple_contagion runs unmodified under a scripted random source on 7 model specifications x directed/undirected '
+    text='Bounded stand-in only (labelled bounded): Gillespie_simple_contagion runs unmodified under a scripted random source on 9 model specifications x directed/undirected '
          '5-node graphs x 6 initial conditions; at EVERY step the rate handed to expovariate equals the sum of the rates of the transitions enabled in the current statuses '
          '(recomputed from the two specification graphs, weights and rate functions), exactly one node changes per event and the change is an enabled transition; over a grid '
          'of the selecting uniform draw each transition type is chosen with its rate share.',
